@@ -1,31 +1,42 @@
-(* The FIFO lemma: a deque walk over entries of uniform height visits the leaves in depth-first order.
+(* The FIFO lemma: a deque walk over entries of uniform height pops them level by level, each level in the
+   order their parents were popped; hence the leaves are visited in depth-first order.
    Generic in the entry type; instantiated for __iter__, the *_at_depth walks and the HLoc resolution. *)
 Require Import SF.Prelude SF.Hier.
 
-Section BfsDfs.
+Lemma list_sum_cons a l : list_sum (a :: l) = (a + list_sum l)%nat.
+Proof. reflexivity. Qed.
+
+Section BfsLevels.
   Variables (N R : Type).
   Variable step : N -> list R * list N.
   Variable ht : N -> nat.
   Variable P : N -> Prop.
   Hypothesis H0 : forall x, P x -> ht x = O -> snd (step x) = [].
-  Hypothesis HS : forall x h, P x -> ht x = S h ->
-                    fst (step x) = [] /\ Forall (fun k => P k /\ ht k = h) (snd (step x)).
+  Hypothesis HS : forall x h, P x -> ht x = S h -> Forall (fun k => P k /\ ht k = h) (snd (step x)).
 
+  Definition outs (q : list N) : list R := flat_map (fun x => fst (step x)) q.
+  Definition kids (q : list N) : list N := flat_map (fun x => snd (step x)) q.
+
+  (* level order: everything this level yields, then the next level *)
+  Fixpoint lorder (h : nat) (q : list N) : list R :=
+    match h with
+    | O => outs q
+    | S h' => outs q ++ lorder h' (kids q)
+    end.
+
+  (* depth-first order *)
   Fixpoint dfs (h : nat) (x : N) : list R :=
     match h with
     | O => fst (step x)
-    | S h' => flat_map (dfs h') (snd (step x))
+    | S h' => fst (step x) ++ flat_map (dfs h') (snd (step x))
     end.
 
-  Fixpoint cost (h : nat) (x : N) : nat :=
-    match h with
-    | O => 1
-    | S h' => S (list_sum (map (cost h') (snd (step x))))
-    end.
+  Lemma dfs_S h x : dfs (S h) x = fst (step x) ++ flat_map (dfs h) (snd (step x)).
+  Proof. reflexivity. Qed.
 
   Lemma bfs_leaves : forall q fuel,
     Forall (fun x => P x /\ ht x = O) q -> (length q <= fuel)%nat ->
-    bfs step fuel q = Ok (flat_map (dfs O) q).
+    bfs step fuel q = Ok (outs q).
   Proof.
     induction q as [|x q IH]; intros fuel Hq Hf; [destruct fuel; reflexivity|].
     inversion Hq as [|? ? [Px Hx] Hq']; subst.
@@ -34,58 +45,127 @@ Section BfsDfs.
     rewrite (IH f Hq') by (cbn in Hf; lia). reflexivity.
   Qed.
 
-  Lemma bfs_nodes_prefix : forall h q1 q2 fuel,
-    Forall (fun x => P x /\ ht x = S h) q1 ->
-    bfs step (length q1 + fuel) (q1 ++ q2) = bfs step fuel (q2 ++ flat_map (fun x => snd (step x)) q1).
+  Lemma bfs_level_prefix : forall q1 q2 fuel,
+    bfs step (length q1 + fuel) (q1 ++ q2) =
+    match bfs step fuel (q2 ++ kids q1) with Ok r => Ok (outs q1 ++ r) | Err e => Err e end.
   Proof.
-    induction q1 as [|x q1 IH]; intros q2 fuel Hq.
-    - cbn. rewrite app_nil_r. reflexivity.
-    - inversion Hq as [|? ? [Px Hx] Hq']; subst.
-      destruct (HS x h Px Hx) as [Hout _].
-      cbn [length Nat.add app bfs]. rewrite Hout. rewrite <- app_assoc.
-      rewrite (IH (q2 ++ snd (step x)) fuel Hq').
-      cbn [flat_map]. rewrite <- app_assoc.
-      destruct (bfs step fuel (q2 ++ snd (step x) ++ flat_map (fun x0 => snd (step x0)) q1)); reflexivity.
+    induction q1 as [|x q1 IH]; intros q2 fuel.
+    - cbn. rewrite app_nil_r. destruct (bfs step fuel q2); reflexivity.
+    - cbn [length Nat.add app bfs]. rewrite <- app_assoc.
+      rewrite (IH (q2 ++ snd (step x)) fuel).
+      unfold kids, outs. cbn [flat_map]. rewrite <- (app_assoc q2).
+      destruct (bfs step fuel (q2 ++ snd (step x) ++ flat_map (fun x0 => snd (step x0)) q1));
+        [rewrite <- app_assoc|]; reflexivity.
+  Qed.
+
+  Lemma cost_sum_O : forall q, list_sum (map (bfs_cost step O) q) = length q.
+  Proof.
+    induction q as [|x q IH]; [reflexivity|]. cbn [map length]. rewrite list_sum_cons, IH. reflexivity.
   Qed.
 
   Lemma cost_sum_S : forall h q,
-    list_sum (map (cost (S h)) q) = (length q + list_sum (map (cost h) (flat_map (fun x => snd (step x)) q)))%nat.
+    list_sum (map (bfs_cost step (S h)) q) = (length q + list_sum (map (bfs_cost step h) (kids q)))%nat.
   Proof.
     induction q as [|x q IH]; [reflexivity|].
-    cbn [map length flat_map]. rewrite map_app, list_sum_app.
-    change (list_sum (cost (S h) x :: map (cost (S h)) q)) with (cost (S h) x + list_sum (map (cost (S h)) q))%nat.
-    rewrite IH. cbn [cost]. lia.
+    unfold kids in *. cbn [map length flat_map]. rewrite map_app, list_sum_app, list_sum_cons, IH.
+    cbn [bfs_cost]. lia.
   Qed.
 
-  Lemma flat_map_flat_map : forall (f : N -> list N) (g : N -> list R) q,
+  Lemma kids_forall : forall h q, Forall (fun x => P x /\ ht x = S h) q -> Forall (fun x => P x /\ ht x = h) (kids q).
+  Proof.
+    intros h q Hq. induction q as [|x q IHq]; [constructor|].
+    inversion Hq as [|? ? [Px Hx] Hq']; subst. unfold kids. cbn [flat_map].
+    apply Forall_app. split; [exact (HS x h Px Hx)|apply IHq; exact Hq'].
+  Qed.
+
+  Theorem bfs_lorder : forall h q fuel,
+    Forall (fun x => P x /\ ht x = h) q ->
+    (list_sum (map (bfs_cost step h) q) <= fuel)%nat ->
+    bfs step fuel q = Ok (lorder h q).
+  Proof.
+    induction h as [|h IH]; intros q fuel Hq Hf.
+    - apply bfs_leaves; [exact Hq|]. rewrite cost_sum_O in Hf. exact Hf.
+    - rewrite cost_sum_S in Hf.
+      pose proof (bfs_level_prefix q [] (fuel - length q)) as E.
+      rewrite app_nil_r in E. cbn [app] in E.
+      replace (length q + (fuel - length q))%nat with fuel in E by lia.
+      rewrite E. rewrite (IH (kids q) (fuel - length q)%nat (kids_forall h q Hq)) by lia.
+      reflexivity.
+  Qed.
+
+  Lemma flat_map_flat_map : forall (X B C : Type) (f : X -> list B) (g : B -> list C) q,
     flat_map g (flat_map f q) = flat_map (fun x => flat_map g (f x)) q.
   Proof.
     induction q as [|x q IH]; [reflexivity|]. cbn. rewrite flat_map_app, IH. reflexivity.
   Qed.
 
+  (* a projection of the yielded items that inner entries never produce (all items, when inner entries
+     yield nothing; or the non-error items) is the same in level order and in depth-first order *)
+  Section Proj.
+    Variable C : Type.
+    Variable proj : R -> list C.
+    Hypothesis inner_silent : forall x h, P x -> ht x = S h -> flat_map proj (fst (step x)) = [].
+
+    Lemma outs_silent : forall h q, Forall (fun x => P x /\ ht x = S h) q -> flat_map proj (outs q) = [].
+    Proof.
+      intros h q Hq. induction q as [|y q IHq]; [reflexivity|].
+      inversion Hq as [|? ? [Py Hy] Hq']; subst. unfold outs in *. cbn [flat_map]. rewrite flat_map_app.
+      rewrite (inner_silent y h Py Hy), (IHq Hq'). reflexivity.
+    Qed.
+
+    Lemma proj_lorder_dfs : forall h q, Forall (fun x => P x /\ ht x = h) q ->
+      flat_map proj (lorder h q) = flat_map (fun x => flat_map proj (dfs h x)) q.
+    Proof.
+      induction h as [|h IH]; intros q Hq.
+      - cbn [lorder dfs]. unfold outs. apply flat_map_flat_map.
+      - cbn [lorder]. rewrite flat_map_app. rewrite (outs_silent h q Hq). cbn [app].
+        rewrite (IH (kids q) (kids_forall h q Hq)).
+        clear IH. induction q as [|x q IHq]; [reflexivity|].
+        inversion Hq as [|? ? [Px Hx] Hq']; subst.
+        unfold kids in *. cbn [flat_map dfs]. rewrite !flat_map_app.
+        rewrite (inner_silent x h Px Hx). cbn [app].
+        f_equal; [symmetry; apply flat_map_flat_map|]. apply IHq. exact Hq'.
+    Qed.
+  End Proj.
+
+  (* a Boolean test over the yielded items is order independent *)
+  Lemma existsb_flat_map : forall (X B : Type) (p : B -> bool) (f : X -> list B) l,
+    existsb p (flat_map f l) = existsb (fun x => existsb p (f x)) l.
+  Proof.
+    induction l as [|x l IH]; [reflexivity|]. cbn. rewrite existsb_app, IH. reflexivity.
+  Qed.
+
+  Lemma existsb_dfs_S : forall (p : R -> bool) h x,
+    existsb p (dfs (S h) x) = existsb p (fst (step x)) || existsb (fun y => existsb p (dfs h y)) (snd (step x)).
+  Proof. intros. cbn [dfs]. rewrite existsb_app, existsb_flat_map. reflexivity. Qed.
+
+  Lemma existsb_lorder_dfs : forall (p : R -> bool) h q,
+    existsb p (lorder h q) = existsb (fun x => existsb p (dfs h x)) q.
+  Proof.
+    induction h as [|h IH]; intros q.
+    - cbn [lorder dfs]. unfold outs. apply existsb_flat_map.
+    - cbn [lorder]. rewrite existsb_app, IH. unfold outs, kids. rewrite !existsb_flat_map.
+      induction q as [|x q IHq]; [reflexivity|]. cbn [existsb].
+      rewrite existsb_dfs_S. rewrite <- IHq.
+      destruct (existsb p (fst (step x))), (existsb (fun y => existsb p (dfs h y)) (snd (step x)));
+        cbn; rewrite ?orb_true_r; reflexivity.
+  Qed.
+
+  Lemma flat_map_single : forall (B : Type) (l : list B), flat_map (fun r => [r]) l = l.
+  Proof. induction l as [|x l IH]; [reflexivity|]. cbn. rewrite IH. reflexivity. Qed.
+
+  (* the classic form: inner entries yield nothing => the walk yields the depth-first sequence *)
   Theorem bfs_dfs : forall h q fuel,
+    (forall x h', P x -> ht x = S h' -> fst (step x) = []) ->
     Forall (fun x => P x /\ ht x = h) q ->
-    (list_sum (map (cost h) q) <= fuel)%nat ->
+    (list_sum (map (bfs_cost step h) q) <= fuel)%nat ->
     bfs step fuel q = Ok (flat_map (dfs h) q).
   Proof.
-    induction h as [|h IH]; intros q fuel Hq Hf.
-    - apply bfs_leaves; [exact Hq|].
-      assert (E : list_sum (map (cost O) q) = length q).
-      { clear. induction q as [|x q IHq]; [reflexivity|]. cbn [map length].
-        change (list_sum (cost O x :: map (cost O) q)) with (cost O x + list_sum (map (cost O) q))%nat.
-        rewrite IHq. reflexivity. }
-      lia.
-    - rewrite cost_sum_S in Hf.
-      pose proof (bfs_nodes_prefix h q [] (fuel - length q) Hq) as E.
-      rewrite app_nil_r in E. cbn [app] in E.
-      replace (length q + (fuel - length q))%nat with fuel in E by lia.
-      rewrite E.
-      rewrite IH.
-      + rewrite flat_map_flat_map. reflexivity.
-      + clear -Hq HS. induction q as [|x q IHq]; [constructor|].
-        inversion Hq as [|? ? [Px Hx] Hq']; subst. cbn [flat_map].
-        apply Forall_app. split; [|apply IHq; exact Hq'].
-        destruct (HS x h Px Hx) as [_ Hk]. exact Hk.
-      + lia.
+    intros h q fuel Hsil Hq Hf. rewrite (bfs_lorder h q fuel Hq Hf). f_equal.
+    rewrite <- (flat_map_single _ (lorder h q)).
+    rewrite (proj_lorder_dfs R (fun r => [r])).
+    - apply flat_map_ext. intro x. apply flat_map_single.
+    - intros x h' Px Hx. rewrite (Hsil x h' Px Hx). reflexivity.
+    - exact Hq.
   Qed.
-End BfsDfs.
+End BfsLevels.
